@@ -416,6 +416,7 @@ type FuncContract struct {
 	Asserts   []Clause // checked at every return of the body (may mention locals); never assumed by callers
 	Assumes   []Clause // assumed at entry of the body without being a caller obligation (listed in the evidence)
 	At        map[string][]Clause // assertions at call sites, keyed by the normalised source text of the call
+	After     map[string][]Clause // assertions right after a call (results bound)
 	Propagates bool               // every error returned by a callee must make this function return an error
 	NoProp    []string            // call texts (prefixes) whose error is deliberately discarded
 	Trusts    []Clause // postconditions assumed by callers but NOT checked against the body (listed as assumptions)
@@ -590,8 +591,9 @@ func (c *Contracts) loadFile(path string, pkgName string) error {
 			}
 			cur.Trusts = append(cur.Trusts, cl)
 			c.Assumes = append(c.Assumes, fmt.Sprintf("%s (trusted postcondition): %s", cur.Key, rest))
-		case "at":
-			// at "<call text>" label: expr
+		case "at", "after":
+			// at "<call text>" label: expr      (checked just before the call)
+			// after "<call text>" label: expr   (checked just after it; result / r0, r1.. are the call's results)
 			if cur == nil || !strings.HasPrefix(rest, "\"") {
 				return fmt.Errorf("%s:%d: at \"call text\" label: expr", path, j.line)
 			}
@@ -609,6 +611,13 @@ func (c *Contracts) loadFile(path string, pkgName string) error {
 			cl, err := mkClause(strings.TrimSpace(rest[q+2:]), j.line)
 			if err != nil {
 				return err
+			}
+			if word == "after" {
+				if cur.After == nil {
+					cur.After = map[string][]Clause{}
+				}
+				cur.After[key] = append(cur.After[key], cl)
+				continue
 			}
 			if cur.At == nil {
 				cur.At = map[string][]Clause{}
